@@ -330,7 +330,7 @@ MATRICES = [
     (dict(A=[[3., -1., 0.5]], b=[1e-7], G=None, h=None), "3*x0 - x1 + 0.5*x2 = 1e-7", ['x0', 'x1', 'x2']),
 ]
 
-BOUNDS_ = [([0., -1.], [1., 4.]), ([None, 2.], [3., None]), ([-2.5], [-2.5]), ([1e-7, -1e6], [1e6, 1e-7])]
+BOUNDS_ = [([0., -1.], [1., 4.]), ([None, 2.], [3., None]), ([-2.5], [-2.5]), ([1e-7, -1e6], [1e6, 1e-7]), ([1000., 0.], [1000.0078125, 7.450580596923828e-09])]      # (last: narrow, not degenerate)
 
 
 def interpreter_selftest():
